@@ -115,7 +115,23 @@ def _function_lines(src, name):
         if k >= len(lines):
             return None, []
     inner = sig[sig.index('(') + 1: sig.rindex(')')]
-    params = [re.split(r'\s+', x.strip().split('=')[0].strip())[-1] for x in _split_top(inner, ',') if x.strip()]
+    params = []
+    for x in _split_top(inner, ','):
+        if x.strip():
+            toks = re.split(r'\s+', x.strip().split('=')[0].strip())
+            params.append((toks[-1], ' '.join(toks[:-1]) or 'object'))
+    # decorators directly above the def, and module-level `# cython:` directive comments
+    k0 = next(i for i, ln in enumerate(lines) if re.match(r'^def\s+%s\s*\(' % re.escape(name), ln))
+    decos, j = [], k0 - 1
+    while j >= 0 and (lines[j].startswith('@') or not lines[j].strip() or lines[j].lstrip().startswith('#')):
+        if lines[j].startswith('@'):
+            decos.append(re.sub(r'\s+', '', _strip_comment(lines[j])))
+        elif not lines[j].strip():
+            break
+        j -= 1
+    decos = sorted(decos) + sorted('module:' + re.sub(r'\s+', '', ln.lstrip('# '))
+                                   for ln in lines if re.match(r'^#\s*cython\s*:', ln))
+    _function_lines.decorators = decos
     body, cur, ind, doc = [], '', None, None
     for ln in lines[k:]:
         raw = ln
@@ -174,13 +190,17 @@ def normalise_kernel(src, name):
               parameters A, B, the state-count parameters NA, NB, scalar temporaries inlined
     ret     - what is returned;  extras - every statement that was not recognised (must be empty)
     Never raises: anything unexpected lands in `extras`."""
-    res = {'guards': [], 'alloc': [], 'loops': [], 'writes': [], 'ret': '', 'extras': []}
+    res = {'guards': [], 'alloc': [], 'loops': [], 'writes': [], 'ret': '', 'extras': [], 'types': [], 'tags': []}
     try:
         params, body = _function_lines(src, name)
         if params is None or len(params) != 4:
             res['extras'].append('unrecognised signature of %s' % name)
             return res
-        env = dict(zip(params, ['A', 'B', 'NA', 'NB']))
+        res['tags'] = list(_function_lines.decorators)
+        env = dict(zip([q[0] for q in params], ['A', 'B', 'NA', 'NB']))
+        types = {role: ty for (_, ty), role in zip(params, ['A', 'B', 'NA', 'NB'])}
+        decl = {}                  # declared C type of every local
+        seen_loop = [False]
         pending_zero = set()       # names set to 0 (candidate counting-loop variables)
         stack = []                 # open blocks: (indent of their body's parent, kind, var-or-cond)
         out_name = [None]
@@ -201,7 +221,7 @@ def normalise_kernel(src, name):
                 expr = parts[0] if len(parts) > 1 and re.match(r'^\s*[rbuf]*["\']', parts[-1]) else m.group(1)
                 for g in _split_top(expr, ' and '):
                     g = _subst(g.strip(), env)
-                    res['guards'].append((cond + '=>' + g) if cond else g)
+                    res['guards'].append(('post:' if seen_loop[0] else 'pre:') + ((cond + '=>' + g) if cond else g))
                 continue
             m = re.match(r'^if (.*):$', st)
             if m:
@@ -217,6 +237,8 @@ def normalise_kernel(src, name):
                     kind = 'range/%d' % len(args)
                 res['loops'].append((kind, _subst(args[0], env)))
                 env[m.group(1)] = 'L%d' % depth
+                types['L%d' % depth] = decl.get(m.group(1), 'object')
+                seen_loop[0] = True
                 stack.append({'indent': indent, 'kind': 'for', 'var': m.group(1)})
                 continue
             m = re.match(r'^while (%s) < (.*):$' % _IDENT, st)
@@ -224,13 +246,23 @@ def normalise_kernel(src, name):
                 pending_zero.discard(m.group(1))
                 res['loops'].append(('range', _subst(m.group(2), env)))
                 env[m.group(1)] = 'L%d' % depth
+                types['L%d' % depth] = decl.get(m.group(1), 'object')
+                seen_loop[0] = True
                 stack.append({'indent': indent, 'kind': 'while', 'var': m.group(1), 'incremented': False})
                 continue
             flat_st = st
             while re.search(r'\[[^\[\]]*\]|\([^()]*\)', flat_st):
                 flat_st = re.sub(r'\[[^\[\]]*\]|\([^()]*\)', '', flat_st)
-            if st.startswith('cdef ') and '=' not in flat_st:
-                continue                              # declaration without a value: nothing happens
+            if st.startswith('cdef '):
+                head = st[5:].split(' = ')[0] if ' = ' in flat_st else st[5:]
+                dm = re.match(r'^(.*?)\s+(%s(?:\s*,\s*%s)*)$' % (_IDENT, _IDENT), head)
+                if dm:
+                    for nm_ in re.split(r'\s*,\s*', dm.group(2)):
+                        decl[nm_] = re.sub(r'\s+', ' ', dm.group(1)).replace(', ', ',')
+                else:
+                    res['extras'].append('unrecognised declaration: ' + st)
+                if '=' not in flat_st:
+                    continue                          # declaration without a value: nothing else happens
             m = re.match(r'^(?:cdef .*?\s)?(%s) = (.*)$' % _IDENT, st)
             if m:
                 nm, rhs = m.group(1), m.group(2)
@@ -241,6 +273,7 @@ def normalise_kernel(src, name):
                     res['alloc'] = [a.group(1), _subst(args[0], env), (dt[0] if dt else 'default').replace(' ', '')]
                     if len(args) - 1 != len(dt):
                         res['alloc'].append('extra-args:' + ','.join(args[1:]).replace(' ', ''))
+                    res['alloc'].append('buffer:' + decl.get(nm, 'object').replace(' ', ''))
                     out_name[0] = nm
                     env[nm] = 'OUT'
                     continue
@@ -257,6 +290,8 @@ def normalise_kernel(src, name):
                     flat = re.sub(r'\[[^\[\]]*\]|\([^()]*\)', '', flat)
                 env[nm] = '(' + _subst(rhs, env) + ')' if re.search(r'[-+*/%<>=]| (and|or|not|if) ', flat) \
                     else _subst(rhs, env)
+                if depth > 0:
+                    types[env[nm]] = decl.get(nm, 'object')     # an index temporary inside the loop nest
                 continue
             m = re.match(r'^(%s) \+= 1$' % _IDENT, st)
             wh = next((b for b in reversed(stack) if b['kind'] == 'while'), None)
@@ -267,8 +302,9 @@ def normalise_kernel(src, name):
             if m:
                 if wh and wh.get('incremented'):
                     res['extras'].append('statement after the increment of a counting loop: ' + st)
-                res['writes'].append('%d|%s[%s]%s%s' % (depth, _subst(m.group(1), env), _subst(m.group(2), env),
-                                                        m.group(3), _subst(m.group(4), env)))
+                res['writes'].append('%d|%s|%s[%s]%s%s' % (depth, cond, _subst(m.group(1), env),
+                                                           _subst(m.group(2), env), m.group(3),
+                                                           _subst(m.group(4), env)))
                 continue
             m = re.match(r'^return (.*)$', st)
             if m:
@@ -279,6 +315,7 @@ def normalise_kernel(src, name):
         for z in sorted(pending_zero):
             res['extras'].append('unrecognised: %s = 0' % z)
         res['guards'] = sorted(set(res['guards']))
+        res['types'] = sorted(types.items())
     except Exception as e:  # noqa  (the translator never raises: the obligation then fails readably)
         res['extras'].append('unrecognised: translator error %s: %s' % (type(e).__name__, str(e)[:80]))
     return res
@@ -327,7 +364,9 @@ def translate(repo_dir, gen_dir):
          '  loops : List (String × String)',
          '  writes : List String',
          '  ret : String',
-         '  extras : List String', '',
+         '  extras : List String',
+         '  types : List (String × String)',
+         '  tags : List String', '',
          '/-- `ctypedef fused` blocks: name, member element types -/',
          'def fused : List (String × List String) :=',
          '  [' + ', '.join('(%s, %s)' % (_lean_str(k), _lean_list(v)) for k, v in sorted(fused.items())) + ']', '']
@@ -340,7 +379,9 @@ def translate(repo_dir, gen_dir):
               '  loops := [' + ', '.join('(%s, %s)' % (_lean_str(a), _lean_str(b)) for a, b in r['loops']) + ']',
               '  writes := ' + _lean_list(r['writes']),
               '  ret := ' + _lean_str(r['ret']),
-              '  extras := ' + _lean_list(r['extras']), '']
+              '  extras := ' + _lean_list(r['extras']),
+              '  types := [' + ', '.join('(%s, %s)' % (_lean_str(a), _lean_str(b)) for a, b in r['types']) + ']',
+              '  tags := ' + _lean_list(r['tags']), '']
     L.append('end Ens.Info.Gen')
     text = '\n'.join(L) + '\n'
     out = os.path.join(gen_dir, 'InfoKernel.lean')
